@@ -23,7 +23,8 @@
      predicted tree = real tree   (binding of the transcription to rowan's result)
      predicted Lossless            (all eaten tokens, in order, under the root)
      I_prog   C02: the token index strictly increases between parse_chunk iterations
-     I_lin    C02: |events| <= EvK * (tokens + 1) + EvC  (linear work, machine independent)
+     I_lin    C02: |events| <= EvK * (input bytes + 1) + EvC  (linear work, machine independent; bytes, not
+              lexer tokens, because a whole comment is one lexer token that the doc lexer re-lexes)
 
    and prints one VERDICT per parse.  The flags are monotone history variables evaluated at every step;
    they are reported instead of being TLC invariants so that one bad parse does not hide the others.
@@ -153,7 +154,7 @@ Verdict(real) ==
    pred_lossless |-> (~crashed /\ Lossless),
    tree_eq |-> (~crashed /\ PredictedTree = real.tree),
    real_lossless |-> real.lossless,
-   prog |-> progOK, lin |-> (nev <= EvK * (Rec[base].ntok + 1) + EvC),
+   prog |-> progOK, lin |-> (nev <= EvK * (Rec[base].len + 1) + EvC),
    nev |-> nev, ntok |-> Rec[base].ntok, eaten |-> ntok]
 
 Tree ==
